@@ -167,6 +167,47 @@ void *qfile_load(const char *filepath, size_t *nbytes) {
         return NULL;
     }
 
+    if (!S_ISREG(fs.st_mode) || fs.st_size == 0) {
+        // the size of a pipe, FIFO, terminal or /proc file is not known in
+        // advance (st_size is 0): read until the end of the stream.
+        size_t limit = (nbytes != NULL && *nbytes > 0) ? *nbytes : (size_t) -1;
+        size_t cap = 4096, total = 0;
+        char *sbuf = (char *) malloc(cap + 1);
+        while (sbuf != NULL && total < limit) {
+            if (total == cap) {
+                cap *= 2;
+                char *grown = (char *) realloc(sbuf, cap + 1);
+                if (grown == NULL) {
+                    free(sbuf);
+                    sbuf = NULL;
+                    break;
+                }
+                sbuf = grown;
+            }
+            size_t want = cap - total;
+            if (want > limit - total)
+                want = limit - total;
+            ssize_t got = read(fd, sbuf + total, want);
+            if (got < 0) {
+                if (errno == EINTR)
+                    continue;
+                free(sbuf);
+                sbuf = NULL;
+                break;
+            }
+            if (got == 0)
+                break;
+            total += got;
+        }
+        close(fd);
+        if (sbuf == NULL)
+            return NULL;
+        sbuf[total] = '\0';
+        if (nbytes != NULL)
+            *nbytes = total;
+        return sbuf;
+    }
+
     size_t size = fs.st_size;
     if (nbytes != NULL && *nbytes > 0 && *nbytes < fs.st_size)
         size = *nbytes;
